@@ -8,10 +8,16 @@ from harness import gen
 from harness.framework import Suite
 
 PID = "C17"
-LEAN_MODS = ["SwcVerif.Props.C17"]
+LEAN_MODS = ["SwcVerif.Props.C17", "SwcVerif.Props.C17Gen"]
 TRANSLATE_ALGO = ["AlgoMst"]     # Gen/AlgoMst.lean is regenerated on every run from transforms/mst.py (the greedy loop of PointsToCuntzMST.__call__)
 DRIVER_FILES = ["SwcVerif/Model/AlgoRunMst.lean"]
-THEOREMS = ["C17.init_inv", "C17.greedy_step", "C17.step_inv", "C17.spanning", "C17.branching_limit", "C17.prim_step", "C17.prim_minimal", "C17.prim_attains"]
+THEOREMS = ["C17.init_inv", "C17.greedy_step", "C17.step_inv", "C17.spanning", "C17.branching_limit", "C17.prim_step", "C17.prim_minimal", "C17.prim_attains",
+            # the array library of the translator: the masked `argmin` is the FIRST least unmasked cell in row-major order
+            "Py.maArgmin_spec", "Py.unravelIndex_nat",
+            # refinement: the loop generated from PointsToCuntzMST.__call__ on this run equals the model (every n > 0, every n × n matrix, every option)
+            "RefineMst.maArgmin_eq", "RefineMst.for1_step", "RefineMst.mst_loop_refines", "RefineMst.mst_loop_raises",
+            "C17.generated_mst_eq_model", "C17.generated_mst_raises", "C17.generated_spanning", "C17.generated_branching_limit",
+            "C17.generated_greedy_step", "C17.generated_prim_minimal", "C17.generated_prim_attains"]
 TRUSTED = ["hand-written model Model/Mst.lean of the greedy loop (tied by the c17.mst correspondence: the parent array compared exactly; the model is fed "
            "the distance matrix the code computes in the dtype of the cloud (float64 or float32), as exact rationals)"]
 ASSUMPTIONS = ["prim_minimal assumes a symmetric, non-negative matrix: |p_i - p_j| computed by np.linalg.norm is both (IEEE negation is exact)",
